@@ -181,7 +181,7 @@ CLAIMS = {
              "marks before and after each <send>/<cancel> and at reception give time intervals, and TraceC16.tla (which also "
              "computes the expected milliseconds from the spelling) rejects early, duplicate, lost, wrongly valued, "
              "delivered-after-cancel, delivered-after-termination and out-of-due-order deliveries whenever the intervals make the case certain.",
-        note="Real time is measured, not controlled: cases inside the measurement uncertainty are not judged; a timer later than 150 ms counts as lost. "
+        note="Real time is measured, not controlled: cases inside the measurement uncertainty are not judged; a timer later than 400 ms counts as lost. "
              "Thread interleavings of timer and session are not enumerated."),
     "C17": dict(
         category="model_checking", design_ref="4/C17",
